@@ -6,7 +6,6 @@ package main
 
 import (
 	"fmt"
-	"math"
 	"sort"
 	"strings"
 
@@ -72,7 +71,7 @@ func (d *optDump) constValue(v value.Value, top bool) {
 	case value.Int:
 		d.tok("c", "i", fmt.Sprint(int64(x)))
 	case value.Float:
-		d.tok("c", "f", fmt.Sprintf("%016x", math.Float64bits(float64(x))))
+		d.tok("c", "f", fmt.Sprintf("%016x", floatBitsCanon(float64(x))))
 	case value.String:
 		d.tok("c", "s", cps(string(x)))
 	case value.Bool:
